@@ -1,11 +1,11 @@
 SPECIFICATION Spec
 CONSTANTS
   NC = 7
-  Driven = {1,2,3}
-  Targets = {1,2,3,4}
-  AliasTargets = {1,2}
+  Driven = {1,2}
+  Targets = {1,2,3}
+  AliasTargets = {1,3}
   MaxNum = 3
-  MaxOps = 9
+  MaxOps = 8
   Known = {"C20-1"}
 VIEW View
 ACTION_CONSTRAINT Emit
